@@ -450,4 +450,22 @@ theorem stepRaw_RG {s : SeqState} (hd : DevOk s.dev) (hi : SeqInv s) (op : Op) :
     repeat' split
     all_goals first | exact RG_fail hi _ | exact SG.rfl' hi
 
+/-- An oracle answer touches no instruction, configuration or bookkeeping: every invariant
+of the timelines is kept. -/
+theorem injectOracle_SG {s : SeqState} (hi : SeqInv s) (n : ChName) (d : Rat) (du fs fe : Nat) :
+    SG s (s.injectOracle n d du fs fe) := by
+  refine ⟨?_, rfl, rfl, ?_⟩
+  · intro c hc
+    simp only [SeqState.injectOracle, List.mem_map] at hc
+    obtain ⟨c0, hc0, rfl⟩ := hc
+    have := hi c0 hc0
+    by_cases h : (c0.name == n) = true
+    · rw [if_pos h]; exact this
+    · rw [if_neg h]; exact this
+  · intro i c hc
+    simp only [SeqState.injectOracle, List.getElem?_map, hc, Option.map_some]
+    by_cases h : (c.name == n) = true
+    · rw [if_pos h]; exact ⟨_, rfl, rfl, rfl, List.prefix_refl _, rfl, rfl⟩
+    · rw [if_neg h]; exact ⟨_, rfl, Ext.refl c⟩
+
 end Pulser
